@@ -115,6 +115,14 @@ class SliceIt:
         self.items, self.pos = items, pos
 
 
+class AdaptIt:
+    """Iterator adaptor over a modelled iterator: kind in filter / take_while / map / skip_while."""
+    __slots__ = ('kind', 'inner', 'closure', 'captures', 'done')
+
+    def __init__(self, kind, inner, closure, captures, done=False):
+        self.kind, self.inner, self.closure, self.captures, self.done = kind, inner, closure, captures, done
+
+
 class Opt:
     """Option value: tag in {'some','none',None(unknown)}, payload abstract value."""
     __slots__ = ('tag', 'payload', 'label')
@@ -1033,6 +1041,32 @@ class Interp:
                 base = fr._project(fr.store.get(base.root, TOP), base.proj)
             fr.storev(dest, Int(len(base.items)) if isinstance(base, Agg) else TOP)
             return
+
+        # ---- iterator adaptors over modelled iterators (closures are interpreted)
+        if trait == 'std::iter::Iterator' and name in ('filter', 'take_while', 'map', 'skip_while') and len(args) == 2:
+            inner = fr.operand(args[0])
+            cl = self._closure_value(fr, args[1])
+            if isinstance(inner, (SliceIt, AdaptIt, RangeIt)) and cl is not None:
+                fr.storev(dest, AdaptIt(name, inner, cl[0], cl[1]))
+                return
+        if name == 'next' and trait == 'std::iter::Iterator':
+            itv = fr.deref_operand(args[0])
+            if isinstance(itv, AdaptIt) or (isinstance(itv, SliceIt) and not res.startswith('<std::slice::Iter<')):
+                val, nit = self._iter_next(itv, where)
+                fr.storev(dest, val)
+                fr.store_through(args[0], nit)
+                return
+        if name == 'collect' and trait == 'std::iter::Iterator':
+            itv = fr.operand(args[0])
+            if isinstance(itv, (SliceIt, AdaptIt)):
+                out = []
+                for _ in range(100000):
+                    val, itv = self._iter_next(itv, where)
+                    if val.tag != 'some':
+                        break
+                    out.append(val.payload)
+                fr.storev(dest, Agg(out, ('vec', 'Vec')))
+                return
         # ---- comparisons fork the path set
         if trait == 'std::cmp::PartialEq' and name in ('eq', 'ne') and len(args) == 2:
             a = self._as_lin(fr.deref_operand(args[0]))
@@ -1084,6 +1118,72 @@ class Interp:
             self._inline_call(fr, t, res, pth)
             return
         self._havoc(fr, t, 'callee %s not in the fragment' % res)
+
+    def _closure_value(self, fr, op):
+        """(closure def-path, captured values) of a closure operand."""
+        p = op_place(op)
+        if p is None or p['p']:
+            return None
+        rv = fr.res.local_def_rv(p['l'])
+        if rv and rv['k'] == 'agg' and 'closure' in rv['kind']:
+            return rv['kind']['closure'], Agg([fr.operand(o_) for o_ in rv['ops']])
+        return None
+
+    def _call_closure(self, path, captures, arg, where):
+        sub = Interp(self.facts, self.mode, self.inline, self.max_steps, self.max_paths, self.conj_as, self.frob_q, self.extra_transfer)
+        sub.steps = self.steps
+        cbody = self.facts.body(path)
+        if cbody is None:
+            raise NotDerivable('closure body not available', where)
+        # closures are called as (self, arg); `self` is the closure by value or by reference
+        first = ('byref', captures) if cbody.local_ty(1).startswith('&') else captures
+        results = sub.run(path, [first, arg])
+        self.steps = sub.steps
+        self.call_sites += sub.call_sites
+        results = [r for r in results if not (isinstance(r[1], tuple) and r[1] and r[1][0] == 'diverges')]
+        if len(results) != 1:
+            raise NotDerivable('closure %s does not evaluate to a single value on a modelled item (%d paths)' % (path, len(results)), where)
+        return results[0][1]
+
+    def _iter_next(self, itv, where):
+        """(Opt value, advanced iterator) for modelled iterators."""
+        if isinstance(itv, SliceIt):
+            if itv.pos < len(itv.items):
+                return Opt('some', itv.items[itv.pos]), SliceIt(itv.items, itv.pos + 1)
+            return Opt('none', TOP), itv
+        if isinstance(itv, RangeIt):
+            if itv.cur < itv.end:
+                return Opt('some', Int(itv.cur)), RangeIt(itv.cur + 1, itv.end)
+            return Opt('none', TOP), itv
+        if isinstance(itv, AdaptIt):
+            if itv.done:
+                return Opt('none', TOP), itv
+            inner = itv.inner
+            for _ in range(100000):
+                val, inner = self._iter_next(inner, where)
+                if val.tag != 'some':
+                    return Opt('none', TOP), AdaptIt(itv.kind, inner, itv.closure, itv.captures, True)
+                item = val.payload
+                if itv.kind == 'map-identity':
+                    return Opt('some', item), AdaptIt(itv.kind, inner, itv.closure, itv.captures)
+                if itv.kind == 'map':
+                    out = self._call_closure(itv.closure, itv.captures, item, where)
+                    return Opt('some', out), AdaptIt(itv.kind, inner, itv.closure, itv.captures)
+                keep = self._call_closure(itv.closure, itv.captures, ('byref', item), where)
+                if not isinstance(keep, Int):
+                    raise NotDerivable('iterator predicate not decided on a modelled item', where)
+                if itv.kind == 'filter':
+                    if keep.v:
+                        return Opt('some', item), AdaptIt(itv.kind, inner, itv.closure, itv.captures)
+                elif itv.kind == 'take_while':
+                    if keep.v:
+                        return Opt('some', item), AdaptIt(itv.kind, inner, itv.closure, itv.captures)
+                    return Opt('none', TOP), AdaptIt(itv.kind, inner, itv.closure, itv.captures, True)
+                elif itv.kind == 'skip_while':
+                    if not keep.v:
+                        return Opt('some', item), AdaptIt('map-identity', inner, itv.closure, itv.captures)
+            raise NotDerivable('iterator adaptor did not terminate', where)
+        raise NotDerivable('unmodelled iterator', where)
 
     def value_of_ref(self, fr, op):
         v = fr.operand(op)
